@@ -94,6 +94,10 @@ def worker(args):
     rel = name.split('-')[0]
     reads = env.reads()
     ops = [op for op in env.ops() if op[0] != 'qdel'] + env.shaping_reads()      # bulk delete bypasses the cache by design (C15)
+    # queries as history operations: a repeated query must not be answered from a stale result cache
+    for root in env.root_entities:
+        ops += [r for r in reads if r[0] in ('r_all', 'r_count') and r[1] == root]
+        ops += [r for r in reads if r[0] in ('r_selkw', 'r_selq') and r[1] == root and r[3] == 0][:2]
     auto = env.model.opts.get('pk') == 'auto'
     if auto:
         # an object without a primary key cannot be looked up by key inside the session
